@@ -71,14 +71,55 @@ pub fn main_campaign() -> SimCampaign {
     }
 }
 
+/// Known finding R10: a member that read to the end of the log while it was not its turn is
+/// parked as caught up; when the turn then passes to it the pending message is not forwarded
+/// until the next matching publish arrives
+pub fn probe_r10() -> SimCampaign {
+    let mut c = main_campaign();
+    c.name = "probe_r10_parked_member_stall";
+    c.flags.avoid.group_stall = false;
+    c.quick = 600;
+    c.thorough = 6000;
+    c.probes = vec!["shared:undelivered_at_idle"];
+    c
+}
+
+/// Known finding R14: one share name used with two different filters shares one group (one
+/// cursor and turn for two different logs)
+pub fn probe_r14() -> SimCampaign {
+    let mut c = main_campaign();
+    c.name = "probe_r14_share_name_two_filters";
+    c.quick = 400;
+    c.thorough = 4000;
+    c.probes = vec!["shared:undelivered_at_idle", "shared:delivered_twice", "shared:member_order", "delivery:matches_no_subscription", "delivery:outside_subscription_lifetime"];
+    c.shape = Some(|mut h: Hist| {
+        // every second shared subscription of group g1 uses the other group's path
+        let mut k = 0;
+        for op in h.ops.iter_mut() {
+            if let Op::Subscribe { filters, .. } = op {
+                for (f, _) in filters.iter_mut() {
+                    if f.starts_with("$share/g1/") {
+                        k += 1;
+                        if k % 2 == 0 {
+                            *f = "$share/g1/b/#".to_string();
+                        }
+                    }
+                }
+            }
+        }
+        h
+    });
+    c
+}
+
 pub fn plan(_tier: Tier) -> Plan {
     Plan {
-        campaigns: vec![Box::new(main_campaign())],
+        campaigns: vec![Box::new(main_campaign()), Box::new(probe_r10()), Box::new(probe_r14())],
         enumerators: vec![],
         rule: "Histories with 1-2 shared groups ($share/g1/.., $share/g2/..) and 3-5 clean-session clients joining, leaving (UNSUBSCRIBE of the group filter, DISCONNECT, link failure, reconnect), bursts and single publishes, per-member ack pacing, the three balancing strategies, QoS 0-2. Oracle over all members' streams: a message is forwarded through a group at most once in total, only to a client that was a member at some moment between the message's acceptance and the delivery, each member's share is in acceptance order; at every idle point every matching message accepted since the group was created has been forwarded to some member (groups that were empty in between or exceeded retention excepted). Non-trivial: >=2 members, >=1 membership change, >=1 forward through a group.".into(),
         assumptions: vec![
             "Members use clean sessions (re-delivery after a session resume would make 'never twice' ambiguous)".into(),
-            "Region R11 (any UNSUBSCRIBE removes the client from every group) is excluded by construction: a group member unsubscribes only from its group filter".into(),
+            "Group members also unsubscribe from unrelated filters (R11 was repaired in /repo)".into(),
         ],
         min_nontrivial: 100,
     }
